@@ -276,7 +276,13 @@ class Gen:
                     newtx([ref], [[ov[0], r.randrange(N_KEYS)]])
                 else:
                     return None
-                newtx([ref], [[max(1, ov[0] - 1), r.randrange(N_KEYS)]])
+                extra = [x for x in free if x[0] != ref and list(x[0]) not in [i for t in o["txs"] if "copy" not in t for i in t["ins"]]]
+                if extra and r.random() < 0.5:
+                    # PARTIAL overlap: the second spender also consumes a fresh output
+                    ref2, ov2 = r.choice(extra)
+                    newtx([ref, ref2], [[max(1, ov[0] + ov2[0] - 1), r.randrange(N_KEYS)]])
+                else:
+                    newtx([ref], [[max(1, ov[0] - 1), r.randrange(N_KEYS)]])
             elif tag == "created_in_block":
                 if not own:
                     if not free:
